@@ -232,6 +232,15 @@ def _read_cur(path):
         return None
 
 
+def _read_tick(path):
+    try:
+        with open(path, "rb") as f:
+            b = f.read(16)
+        return b
+    except OSError:
+        return None
+
+
 def _parse_lines(text, outcome):
     """Merge every summary line; returns (saw final summary, index to resume from after the last checkpoint)."""
     final, nxt = False, None
@@ -335,11 +344,13 @@ def run_workers(scratch, binary, runner, base_job, shards=None, case_timeout=30,
                         break
                     except subprocess.TimeoutExpired:
                         pass
-                    ci = _read_cur(cur)
+                    ci = _read_tick(cur)
                     now = time.time()
                     if ci != last_idx:
                         last_idx, last_change = ci, now
                     elif now - last_change > case_timeout:
+                        if p.poll() is not None:
+                            break
                         hung = True
                         p.kill()
                         p.wait()
@@ -471,7 +482,11 @@ class Findings:
             data = json.load(open(self.path))
         except (OSError, ValueError):
             data = {"findings": []}
-        by = {(e["property"], e["signature"]): e for e in data["findings"]}
+        if os.environ.get("VERIF_RECORD_PRUNE"):
+            # drop known entries of this property that this run no longer observes (after a fix: commit)
+            data["findings"] = [e for e in data["findings"]
+                                if not (e.get("property") == self.prop and e.get("status") == "known" and e["signature"] not in sigs)]
+        by = {(e["property"], e["signature"]): e for e in data["findings"] if e.get("status") == "known"}
         for sig in sorted(sigs):
             st = sigs[sig]
             key = (self.prop, sig)
